@@ -21,6 +21,7 @@ class TranslateError(Exception):
 
 INT, FLOAT, BOOL, ARR, INTLIST, IDL, IDLLIST, BOOLLIST = "Z", "Q", "bool", "(list Q)", "(list Z)", "idl", "(list idl)", "(list bool)"
 STR, STRLIST, DICT = "string", "(list string)", "(list (string * Q))"
+SCAL = "S"      # a scalar operand of a correlator operation (number or observable; abstract)
 ELT, OPTELT, CONTENT = "E", "(option E)", "(list (option E))"      # timeslice entries of a correlator (abstract element type E)
 VEC, VECLIST, MATX, PERMLIST = "V", "(list V)", "M", "(list (list Z))"      # eigenvectors / reference matrix of _sort_vectors (abstract)
 DICTL = "(list (string * list Z))"      # a dictionary from strings to lists of ints
@@ -184,6 +185,11 @@ class Fn:
             t = self.fresh()
             binds.append((t, "py_vecmat %s %s" % (a, b)))
             return t, ARR
+        if ta == OPTELT and tb == SCAL and op in (ast.Add, ast.Mult, ast.Div):
+            f = {ast.Add: "eaddS", ast.Mult: "emulS", ast.Div: "edivS"}[op]
+            t = self.fresh()
+            binds.append((t, "py_eun (fun x_ => %s x_ %s) %s" % (f, b, a)))
+            return t, ELT
         if ta == OPTELT and tb == OPTELT and op in (ast.Add, ast.Sub, ast.Mult, ast.Div):
             # arithmetic on two timeslice entries: a None operand raises TypeError
             f = {ast.Add: "eadd", ast.Sub: "esub", ast.Mult: "emul", ast.Div: "ediv"}[op]
@@ -1123,6 +1129,15 @@ def frag_corr_corr_branch(fn):
     return first.body
 
 
+def frag_corr_scalar_branch(fn):
+    """The body of the `elif isinstance(y, (Obs, int, float, CObs, complex)):` branch of a binary operator of Corr."""
+    first = [st for st in fn.body if not (isinstance(st, ast.Expr) and isinstance(st.value, ast.Constant))][0]
+    want = _d(ast.parse("isinstance(y, (Obs, int, float, CObs, complex))", mode="eval").body)
+    if not (isinstance(first, ast.If) and len(first.orelse) == 1 and isinstance(first.orelse[0], ast.If) and _d(first.orelse[0].test) == want):
+        raise TranslateError("%s: the scalar branch `elif isinstance(y, (Obs, int, float, CObs, complex)):` was not found" % fn.name)
+    return first.orelse[0].body
+
+
 def frag_drop_warnings(fn):
     return _drop_warn_blocks(fn.body)
 
@@ -1157,6 +1172,10 @@ CORR_SIGS = [
          extra_params=[("v_content", CONTENT), ("v_N", INT)], aliases=_CORR_ALIASES, **_CORR),
     dict(coq="corr_add_corr", py="Corr.__add__", fragment=frag_corr_corr_branch, params=[], ret=CONTENT,
          extra_params=[("v_content", CONTENT), ("v_N", INT), ("v_ycontent", CONTENT), ("v_yN", INT)], aliases=_CORR_ALIASES, hints={"newcontent": CONTENT}, **_CORR),
+    dict(coq="corr_add_scalar", py="Corr.__add__", fragment=frag_corr_scalar_branch, params=[], ret=CONTENT,
+         extra_params=[("v_content", CONTENT), ("v_N", INT), ("v_y", SCAL)], env={"y": SCAL}, aliases=_CORR_ALIASES, hints={"newcontent": CONTENT}, **_CORR),
+    dict(coq="corr_mul_scalar", py="Corr.__mul__", fragment=frag_corr_scalar_branch, params=[], ret=CONTENT,
+         extra_params=[("v_content", CONTENT), ("v_N", INT), ("v_y", SCAL)], env={"y": SCAL}, aliases=_CORR_ALIASES, hints={"newcontent": CONTENT}, **_CORR),
     dict(coq="corr_mul_corr", py="Corr.__mul__", fragment=frag_corr_corr_branch, params=[], ret=CONTENT,
          extra_params=[("v_content", CONTENT), ("v_N", INT), ("v_ycontent", CONTENT), ("v_yN", INT)], aliases=_CORR_ALIASES, hints={"newcontent": CONTENT}, **_CORR),
 ]
@@ -1168,7 +1187,8 @@ SORT_SIGS = [
 ]
 SECTION_HEADERS = {
     "sortvec": ["Section SortVec.", "Variables V M : Type.", "Variable rowset : M -> Z -> V -> M.", "Variable absdet : M -> Q."],
-    "corr": ["Section CorrOps.", "Variable E : Type.", "Variables eadd esub emul ediv : E -> E -> E.", "Variable escale : Q -> E -> E."],
+    "corr": ["Section CorrOps.", "Variables E S : Type.", "Variables eadd esub emul ediv : E -> E -> E.", "Variable escale : Q -> E -> E.",
+             "Variables eaddS emulS edivS : E -> S -> E."],
 }
 
 
